@@ -227,18 +227,32 @@ def ext_fuzz(run, binary, seed, scratch, deadline):
     import shutil, time, re
     out = _empty()
     target = run.get("flags", {}).get("target", "decoders")
+    # target "cases": decision-tape fuzzing of an ordinary engine; flags["engine"] = "<engine>[,flag=value...]"
+    spec = run.get("flags", {}).get("engine")
+    rtarget = f"case:{spec}" if target == "cases" else target
+    label = (spec or target).replace(",", "-").replace("=", "-")
     fdir = os.path.join(VROOT, "harness", "fuzz")
     tdir = os.path.join(VROOT, "harness", "target-fuzz")
-    work = os.path.join(scratch, f"fuzz-{target}")
+    work = os.path.join(scratch, f"fuzz-{label}")
     corpus, art = os.path.join(work, "corpus"), os.path.join(work, "art")
     shutil.rmtree(work, ignore_errors=True)
     os.makedirs(art)
     if run.get("start", 0) or run.get("flags", {}).get("dir"):
         # replay of a recorded violation: only the recorded input
         corpus = None
+    elif target == "cases":
+        # no natural seed inputs for a decision tape: 16 tapes from the seed, half of them biased to small values
+        import random
+        rnd = random.Random(seed)
+        os.makedirs(corpus)
+        for i in range(16):
+            with open(os.path.join(corpus, f"tape{i}"), "wb") as f:
+                f.write(bytes(rnd.randrange(256) if rnd.random() < 0.5 else rnd.randrange(8) for _ in range(256)))
     else:
         shutil.copytree(os.path.join(fdir, "seeds", target), corpus)
-    env = dict(os.environ, CARGO_NET_OFFLINE="true", RUSTFLAGS="--cfg ohkami_verif --cfg ohkami_verif_nocap")
+    env = dict(os.environ, CARGO_NET_OFFLINE="true", RUSTFLAGS="--cfg ohkami_verif --cfg ohkami_verif_nocap", ASAN_OPTIONS="detect_leaks=0")
+    if spec:
+        env["VH_FUZZ_ENGINE"] = spec
     stats = {}
     if corpus:
         p = subprocess.run(["cargo", "+nightly", "fuzz", "build", "--target-dir", tdir, target], cwd=fdir, env=env, capture_output=True, text=True)
@@ -246,7 +260,7 @@ def ext_fuzz(run, binary, seed, scratch, deadline):
             out["incon"].append("fuzz target did not build: " + p.stderr[-600:]); return out
         secs = int(min(run["budget"], max(10, deadline - time.time() - 120)))
         cmd = ["cargo", "+nightly", "fuzz", "run", "--target-dir", tdir, target, corpus, "--", f"-fork={NCPU_FUZZ}", "-ignore_crashes=1", "-ignore_timeouts=1", "-ignore_ooms=1",
-               f"-max_total_time={secs}", "-timeout=10", "-rss_limit_mb=4096", f"-max_len={run.get('flags', {}).get('max_len', 600)}", f"-seed={seed}", f"-artifact_prefix={art}/"]
+               f"-max_total_time={secs}", "-timeout=10", "-rss_limit_mb=4096", "-detect_leaks=0", f"-max_len={run.get('flags', {}).get('max_len', 600)}", f"-seed={seed}", f"-artifact_prefix={art}/"]
         try:
             p = subprocess.run(cmd, cwd=fdir, env=env, capture_output=True, text=True, timeout=secs + 300)
         except subprocess.TimeoutExpired:
@@ -262,10 +276,10 @@ def ext_fuzz(run, binary, seed, scratch, deadline):
                  "fuzz_ooms": int(last.group(6)), "fuzz_timeouts": int(last.group(7)), "fuzz_jobs_ended_by_a_monitor_or_crash": int(last.group(8))}
     # replay through the ordinary worker: artifacts first, then the corpus
     dirs = [run["flags"]["dir"]] if not corpus else [art, corpus]
-    keep = os.path.join(VROOT, "replay", run.get("sigprefix", "fuzz"), f"fuzz-{target}")
+    keep = os.path.join(VROOT, "replay", run.get("sigprefix", "fuzz"), f"fuzz-{label}")
     for d in dirs:
         rpt = os.path.join(work, "replay.jsonl")
-        p = subprocess.run([binary, "fuzzreplay", "--target", target, "--dir", d, "--out", rpt, "--seed", str(seed)], cwd=os.path.join(VROOT, "harness"),
+        p = subprocess.run([binary, "fuzzreplay", "--target", rtarget, "--dir", d, "--out", rpt, "--seed", str(seed)], cwd=os.path.join(VROOT, "harness"),
                            env=dict(os.environ, VH_SCRATCH=scratch), capture_output=True, text=True, timeout=1800)
         recs = []
         try:
@@ -279,7 +293,7 @@ def ext_fuzz(run, binary, seed, scratch, deadline):
             dying = [r for r in begun if r["case"] not in ended]
             f = dying[-1]["detail"]["file"] if dying else "?"
             sig = f"{run.get('sigprefix', 'fuzz')}/died-on-fuzz-input:rc{p.returncode}"
-            out["viols"].append({"sig": sig, "what": f"worker died (rc {p.returncode}) replaying {f}: {p.stderr[-300:]}", "case": {"file": f}, "run": {"engine": "fuzz", "variant": run["variant"], "external": "fuzz", "budget": run["budget"], "flags": {"target": target, "dir": d}, "seed": seed}})
+            out["viols"].append({"sig": sig, "what": f"worker died (rc {p.returncode}) replaying {f}: {p.stderr[-300:]}", "case": {"file": f}, "run": {"engine": "fuzz", "variant": run["variant"], "external": "fuzz", "budget": run["budget"], "flags": dict({"target": target, "dir": d}, **({"engine": spec} if spec else {})), "seed": seed}})
             out["viol_per_sig"][sig] = out["viol_per_sig"].get(sig, 0) + 1
             continue
         r = summ[0]
@@ -298,11 +312,16 @@ def ext_fuzz(run, binary, seed, scratch, deadline):
             name = "in-" + __import__("hashlib").sha1(json.dumps(v["case"], sort_keys=True).encode()).hexdigest()[:12]
             one = os.path.join(keep, name)
             os.makedirs(one, exist_ok=True)
-            hx = v["case"].get("input_hex")
+            hx = v["case"].get("input_hex") if target != "cases" else None
+            if target == "cases":
+                # the violating tape: the worker adds the file a case was read from to every violation record
+                src = v["case"].get("input_file")
+                if src and os.path.exists(src):
+                    shutil.copy(src, os.path.join(one, "tape"))
             if hx is not None:
                 sel = {"urlencoded": b"\x00", "cookie": b"\x01", "multipart": b"\x02", "other": b"\x03"}.get(v["case"].get("decoder"), b"") if target == "decoders" else b""
                 open(os.path.join(one, "input"), "wb").write(sel + bytes.fromhex(hx))
-            v["run"] = {"engine": "fuzz", "variant": run["variant"], "external": "fuzz", "budget": run["budget"], "flags": {"target": target, "dir": one}, "seed": seed}
+            v["run"] = {"engine": "fuzz", "variant": run["variant"], "external": "fuzz", "budget": run["budget"], "flags": dict({"target": target, "dir": one}, **({"engine": spec} if spec else {})), "seed": seed}
             out["viols"].append(v)
     out["evaluations"] = stats.get("fuzz_executions", 0) + out["counters"].get("inputs_replayed_through_the_worker", 0)
     out["counters"].update(stats)
@@ -822,3 +841,17 @@ META["C16"] = dict(
     level_note="Sampled type definitions from a fixed grammar; trusts rustc, serde_json, the jsonschema package and the judge.",
     design_ref="DESIGN.md §5 C16",
 )
+
+
+# Decision-tape fuzzing (thorough tier): libFuzzer mutates the *decisions* of an engine's own generator (harness/src/rng.rs: while the tape
+# lasts every draw of the case's generator is read from it), the engine's own oracle judges; artifacts and corpus are replayed through the
+# ordinary worker. See DESIGN.md section 0.
+TAPE_NOTE = (" Thorough tier in addition: coverage-guided decision tapes - libFuzzer (harness/fuzz, target `cases`) mutates the byte tape from which this engine's generator draws its "
+             "decisions, one generated case per execution, judged by the same oracle; every artifact and the whole corpus are replayed through the ordinary release worker.")
+for _pid, _spec, _secs in [("C01", "c01,small=1", 60), ("C03", "c03", 90), ("C04", "c04,small=1", 60), ("C05", "c05", 60), ("C06", "c05,mode=c06", 60), ("C07", "c07", 60), ("C09", "c09", 60),
+                           ("C10", "c10", 60), ("C11", "c11", 60), ("C13", "c13", 60), ("C14", "c14,small=1", 60), ("C17", "c17", 60)]:
+    PLANS[_pid]["thorough"] = list(PLANS[_pid]["thorough"]) + [R("fuzz", "rel", _secs, external="fuzz", flags={"target": "cases", "engine": _spec, "max_len": 1024})]
+    PLANS[_pid]["rule"] = PLANS[_pid]["rule"] + TAPE_NOTE
+    META[_pid]["technique"] = META[_pid]["technique"] + "; thorough tier adds coverage-guided workload generation (libFuzzer over the generator's decision tape) feeding the same monitors"
+for _pid in ("C02", "C08"):
+    META[_pid]["technique"] = META[_pid]["technique"] + "; thorough tier adds coverage-guided workload generation (libFuzzer) feeding the same monitors"
